@@ -535,7 +535,10 @@ func IfBool(x *Term) *Term { return ifAcc("ibool", 3, SBool, x) }
 func IfStr(x *Term) *Term  { return ifAcc("istr", 4, SStr, x) }
 
 // Allocd: the object containing x was allocated no later than time now
-func Allocd(now, x *Term) *Term { return Le(App("birth", SInt, App("rroot", SInt, x)), now) }
+func Allocd(now, x *Term) *Term {
+	r := App("rroot", SInt, x)
+	return And(Neq(r, IntLit(0)), Le(App("birth", SInt, r), now))
+}
 
 func El(arr, idx *Term) *Term { return mk("el", SInt, arr, idx) }
 
@@ -661,3 +664,29 @@ func treeSize(t *Term) int {
 	treeSizeMemo[t] = n
 	return n
 }
+
+var hasBoundMemo = map[*Term]bool{}
+
+// hasBound: does the term mention a quantifier-bound variable?
+func hasBound(t *Term) bool {
+	if v, ok := hasBoundMemo[t]; ok {
+		return v
+	}
+	r := false
+	if len(t.Args) == 0 {
+		r = isBoundVar(t)
+	} else if t.Op == "forall" || t.Op == "exists" {
+		r = true // conservatively: do not name quantified formulas
+	} else {
+		for _, a := range t.Args {
+			if hasBound(a) {
+				r = true
+				break
+			}
+		}
+	}
+	hasBoundMemo[t] = r
+	return r
+}
+
+var isBoundVar = func(t *Term) bool { return false }
